@@ -14,7 +14,9 @@
   `_parse_digits`, the explicit `raise ValueError`s, `date()/datetime()/time()` construction
   out of range; `OverflowError` from `date ± timedelta` leaving 0001-01-01..9999-12-31
   (`week_1 + timedelta(...)` in `_calculate_weekdate`, `datetime + timedelta(days=1)` after
-  the 24:00 rewrite).  No Mathlib import.
+  the 24:00 rewrite) — both are now caught and re-raised as ValueError (fixes b75c1b5), week 53
+  is checked against `isocalendar()` (4bf5835) and a zone boundary before the hour is rejected
+  (17b546f).  No Mathlib import.
 -/
 import DateutilVerif.Base.Py
 import DateutilVerif.Base.Calendar
@@ -79,6 +81,12 @@ def mkDateOrd (y m d : Int) : R Int :=
 def ordChecked (o : Int) : R Int :=
   if o < 1 ∨ o > Cal.maxOrdinal then .error .OverflowError else .ok o
 
+/-- `try: x except OverflowError: raise ValueError(...)` -/
+def overflowToValue {α} (r : R α) : R α :=
+  match r with
+  | .error .OverflowError => .error .ValueError
+  | r => r
+
 /-- `_calculate_weekdate(year, week, day)` -/
 def calculateWeekdate (year week day : Int) : R (Int × Int × Int) :=
   if ¬ (0 < week ∧ week < 54) then .error .ValueError
@@ -86,8 +94,10 @@ def calculateWeekdate (year week day : Int) : R (Int × Int × Int) :=
   else do
     let jan4 ← mkDateOrd year 1 4
     let week1 ← ordChecked (jan4 - ((Cal.isoCalendar year 1 4).2.2 - 1))
-    let o ← ordChecked (week1 + ((week - 1) * 7 + (day - 1)))
-    .ok (Cal.fromOrdinal o)
+    let o ← overflowToValue (ordChecked (week1 + ((week - 1) * 7 + (day - 1))))   -- 'Week date out of range'
+    let result := Cal.fromOrdinal o
+    if week = 53 ∧ (Cal.isoCalendar result.1 result.2.1 result.2.2).2.1 ≠ 53 then .error .ValueError
+    else .ok result
 
 /-- `_parse_isodate_uncommon` -/
 def parseIsodateUncommon (s : Bytes) : R ((Int × Int × Int) × Bytes) :=
@@ -187,6 +197,7 @@ def timeLoop : List Nat → Bytes → Bool → TComps → R (TComps × Bytes)
   | comp :: ks, r, hasSep, c =>
     if r = [] then .ok (c, r) else
     if isTzStart r then
+      if comp = 0 then .error .ValueError else     -- 'ISO time requires an hour'
       match parseTzstr r true with
       | .error e => .error e
       | .ok tz => .ok ({ c with tz := some tz }, [])       -- pos = len_str; break
@@ -232,7 +243,7 @@ def isoparse (sep : Option Nat) (s : Bytes) : R Result := do
       let c ← parseIsotime (r.drop 1)
       if c.h = 24 then do
         let v ← mkDatetime y m d 0 c.m c.s c.us c.tz
-        let t ← v.dt.addDays 1                       -- OverflowError at 9999-12-31
+        let t ← overflowToValue (v.dt.addDays 1)     -- OverflowError at 9999-12-31 -> 'Date out of range'
         .ok ⟨t, c.tz⟩
       else mkDatetime y m d c.h c.m c.s c.us c.tz
     else .error .ValueError                          -- 'String contains unknown ISO components'
